@@ -30,7 +30,7 @@ def catching_checks(name):
     if (det.get(own + "/quick") or {}).get("caught"):
         return [own]
     others = sorted(k.split("/")[0] for k, v in det.items() if v.get("caught"))
-    return others[:1] or [own]
+    return others or [own]          # (tried in turn until one fires)
 
 
 def one(name):
@@ -52,6 +52,8 @@ def one(name):
                                env=dict(os.environ, BVM_REPO=root, VERIF_JOBS="4"), timeout=3600)
             slugs = [l.strip().split(" ")[0] for l in r.stdout.splitlines() if l.startswith("  slug=")]
             res.append((pid, r.returncode == 1 and "VIOLATION" in r.stdout, r.returncode, slugs[:3]))
+            if res[-1][1]:
+                break
         return name, res, None
     finally:
         shutil.rmtree(root, ignore_errors=True)
